@@ -148,6 +148,33 @@ pub fn grammar(tier: Tier) -> Vec<(Opts, String)> {
             }
         }
     }
+    // titled groups at every nesting position around and inside a (plain / adjacent) block that
+    // is followed by one more field: the help renderer pairs group start / end markers
+    let t = |p: P, k: usize, title: &str| match k {
+        0 => p,
+        1 => P::GroupHelp(p.bx(), DocSpec::plain(title)),
+        _ => P::WithGroupHelp(p.bx(), DocSpec::plain(title)),
+    };
+    for ta in 0..2 {
+        for tb in 0..2 {
+            for adjacent in [false, true] {
+                for tblock in 0..3 {
+                    for tc in 0..2 {
+                        for ttop in 0..2 {
+                            let a = t(P::ReqFlag(Names::short('a').help("activate the block")), ta, "inner title");
+                            let b = t(P::Switch(Names::short('b').help("block detail")), tb, "detail title");
+                            let block = if adjacent { P::Adj(vec![a, b]) } else { P::Seq(vec![a, b]) };
+                            let block = t(block, tblock, "outer title");
+                            let block = if adjacent { block.opt() } else { block };
+                            let c = t(P::Switch(Names::short('c').help("unrelated switch")), tc, "other title");
+                            let top = t(P::Seq(vec![block, c]), ttop, "top title");
+                            out.push((P::Seq(vec![top, P::Switch(Names::short('d').help("plain switch"))]), "titled-nesting".into()));
+                        }
+                    }
+                }
+            }
+        }
+    }
     out.into_iter().enumerate().map(|(i, (p, f))| (Opts { p, cfg: cfg_variant(i) }, f)).collect()
 }
 
@@ -178,6 +205,11 @@ fn hostile(o: &Opts) -> Vec<Tok> {
     // white space other than the plain blank, in words, values and names (they end up in
     // messages that are wrapped for the terminal)
     for w in ["a\tb", "\t", "\r", "x\r", "\n", " ", "a b", "\u{a0}", "a\u{a0}b", "\u{b}x", "x\u{c}", "\u{85}", "\u{2028}y", "\u{2003}", "1\t2", "--alpha=a\tb", "--alpha=\r", "--al\tpha", "-a\t", "-\t", "--\u{a0}", "-a=\u{a0}"] {
+        a.push(Tok::s(w));
+    }
+    // longer non-ASCII words and names: byte offsets run well ahead of character counts (the
+    // "did you mean" distance table, column arithmetic)
+    for w in ["日本語日本語", "ёёёёёёёё", "🦀🦀🦀🦀", "--быстро-быстро", "--日本語日本語=x", "-ёёёё", "cmд", "алфавит"] {
         a.push(Tok::s(w));
     }
     // single-dash and double-dash items whose name starts with a stray continuation byte, a
@@ -289,11 +321,14 @@ fn report(unit: &Value, family: &str, mode: &str, argv: &[Tok], what: &str, ctx:
 
 #[cfg(feature = "full")]
 fn docs(p: &bpaf::OptionParser<Val>, unit: &Value, family: &str, ctx: &mut Ctx) {
-    for (mode, r) in [
-        ("markdown", catch(|| p.render_markdown("app")).map(|s| s.len())),
-        ("html", catch(|| p.render_html("app")).map(|s| s.len())),
-        ("manpage", catch(|| p.render_manpage("app", bpaf::doc::Section::General, None, None, None)).map(|s| s.len())),
-    ] {
+    for mode in ["markdown", "html", "manpage"] {
+        // announced before it runs: a renderer that never returns is attributed to this case
+        ctx.begin_case(|| json!({"mode": mode, "argv": []}));
+        let r = match mode {
+            "markdown" => catch(|| p.render_markdown("app")).map(|s| s.len()),
+            "html" => catch(|| p.render_html("app")).map(|s| s.len()),
+            _ => catch(|| p.render_manpage("app", bpaf::doc::Section::General, None, None, None)).map(|s| s.len()),
+        };
         ctx.s.evaluations += 1;
         if let Err(e) = r {
             report(unit, family, mode, &[], &e, ctx);
@@ -479,7 +514,16 @@ impl Check for C04 {
             }
         };
         match mode.as_str() {
-            "markdown" | "html" | "manpage" => docs(&p, unit, &u.family, ctx),
+            "markdown" | "html" | "manpage" => {
+                let r = match mode.as_str() {
+                    "markdown" => catch(|| p.render_markdown("app")).map(|s| s.len()),
+                    "html" => catch(|| p.render_html("app")).map(|s| s.len()),
+                    _ => catch(|| p.render_manpage("app", bpaf::doc::Section::General, None, None, None)).map(|s| s.len()),
+                };
+                if let Err(e) = r {
+                    report(unit, &u.family, &mode, &[], &e, ctx);
+                }
+            }
             "history" => {
                 let a = run(&p, &argv);
                 let b = run(&p, &argv);
@@ -496,7 +540,7 @@ impl Check for C04 {
         }
     }
     fn rule(&self) -> String {
-        "definitions = shape grammar: 9 leaves (switch, req_flag, OsString/u32 argument, positional, strict positional, command, pure, fail) under every wrapper (16: optional, optional+catch, many, some, collect+catch, count, last, fallback, failing fallback_with, guard, parse, hide, hide_usage, group_help with a styled non-ASCII title, complete, complete_shell), every wrapper pair (quick: 9 outer wrappers), every binary combination seq/alt/adjacent of two leaves bare, wrapped as a whole and with either side wrapped (thorough: also triples), with 7 rotating option-level configurations (styled multi-fragment non-ASCII descr/header/footer, texts made of every kind of Unicode white space, version, fallback_to_usage, custom help names + usage, max_width), plus nested adjacent structures (group in group, group below an adjacent command) walked to 6-8 items over their own alphabets, group shapes, general shapes and command trees of the other checks; kept iff check_invariants returns; inputs = every single-item vector over the hostile alphabet and every vector of length <= 2 over its sharpest members plus the declared names (empty string, lone dashes, `=` forms, white space other than the blank (tab, CR, LF, VT, FF, NEL, NBSP, U+2003, U+2028) in words / values / names, invalid UTF-8 names and values (stray continuation bytes, truncated 2/3/4-byte sequences, bare / with = / with a body), 200-character cluster and word; 600-character cluster / word / value as single-item vectors, help/version tokens, declared names) in 11 modes (parse, parse with name, completion rev 0/1/7/8/9 with name, 1/7/8/9 without) + completion marker first/last; render_markdown/html/manpage once per definition; histories: every length<=1 vector re-run on the used object and on a second object in reverse order; violation = panic (caught), process death or hang (supervisor), or differing outcome; non-trivial = non-panicking run of a non-empty vector".into()
+        "definitions = shape grammar: 9 leaves (switch, req_flag, OsString/u32 argument, positional, strict positional, command, pure, fail) under every wrapper (16: optional, optional+catch, many, some, collect+catch, count, last, fallback, failing fallback_with, guard, parse, hide, hide_usage, group_help with a styled non-ASCII title, complete, complete_shell), every wrapper pair (quick: 9 outer wrappers), every binary combination seq/alt/adjacent of two leaves bare, wrapped as a whole and with either side wrapped (thorough: also triples), with 7 rotating option-level configurations (styled multi-fragment non-ASCII descr/header/footer, texts made of every kind of Unicode white space, version, fallback_to_usage, custom help names + usage, max_width), plus titled groups (group_help / with_group_help) at every nesting position around and inside a plain or adjacent block followed by further fields (96 definitions), plus nested adjacent structures (group in group, group below an adjacent command) walked to 6-8 items over their own alphabets, group shapes, general shapes and command trees of the other checks; kept iff check_invariants returns; inputs = every single-item vector over the hostile alphabet and every vector of length <= 2 over its sharpest members plus the declared names (empty string, lone dashes, `=` forms, white space other than the blank (tab, CR, LF, VT, FF, NEL, NBSP, U+2003, U+2028) in words / values / names, long non-ASCII words and names (CJK, Cyrillic, emoji), invalid UTF-8 names and values (stray continuation bytes, truncated 2/3/4-byte sequences, bare / with = / with a body), 200-character cluster and word; 600-character cluster / word / value as single-item vectors, help/version tokens, declared names) in 11 modes (parse, parse with name, completion rev 0/1/7/8/9 with name, 1/7/8/9 without) + completion marker first/last; render_markdown/html/manpage once per definition; histories: every length<=1 vector re-run on the used object and on a second object in reverse order; violation = panic (caught), process death or hang (supervisor), or differing outcome; non-trivial = non-panicking run of a non-empty vector".into()
     }
     fn bounds(&self, tier: Tier) -> Value {
         json!({"ast_size": tier.pick("<=4 nodes + option-level config", "<=5"), "vector_length": 2, "modes": 17})
